@@ -19,7 +19,7 @@ from vlib import c15util as U
 from vlib.common import VERIF, _repo_tag, sha, Reporter, build_tool, run_tool, workdir, MachineryError, pmap, BACKENDS, default_configs, BUILD, REPO
 
 PER_FILE = 50
-FAMS = ["prelude", "a", "b", "c", "d", "e", "f"]
+FAMS = ["prelude", "a", "b", "c", "d", "e", "f", "g"]
 TIMEOUT = 30
 BUDGET = {"quick": 105, "thorough": 900}      # wall seconds after which no new batch is started (exhaustive := false)
 REDUCE_CAP = 120                                 # tool runs per reduced crash group
